@@ -29,6 +29,32 @@ def mt6(model):
             r.fail(n, '%r is not in the built-in math_ignore table: "a = b. %s" loses its full stop '
                    'and the rotation changes' % (need, need), stmt='math_ignore %r' % need,
                    witness='\\begin{equation} a = b. \\nonumber \\end{equation} without amsmath')
+    # (b) the equation-numbering macros of amsmath (amsmath user's guide: \tag, \tag*, \notag) are
+    # declared by the amsmath module with an empty replacement
+    from .rg import latex_defs, _param_strings, _entry_name
+    pstr = _param_strings(model)
+    decl = {}
+    for m, name, nargs, body, node in latex_defs(model):
+        if m.short == 'packages.amsmath':
+            decl[name] = ('latex', nargs, body, node)
+    for ent in tables.registry(model):
+        if ent['node']._mod.short == 'packages.amsmath' and ent['kind'] == 'Macro':
+            nm = _entry_name(model, ent, pstr)
+            code = ent['args'] if ent['args'] is not None else ent['kw'].get('args')
+            decl[nm] = ('python', getattr(code, 'value', ''), ent['repl'], ent['node'])
+    am = model.mod('packages.amsmath')
+    for need, star in (('\\notag', False), ('\\tag', True)):
+        d = decl.get(need)
+        if d is None:
+            r.fail(am.tree, 'amsmath does not declare %s: in "a = b. %s" the full stop is no longer the '
+                   'last character of the formula and is lost' % (need, need + ('{1}' if star else '')),
+                   stmt='amsmath declares %s' % need,
+                   witness='\\usepackage{amsmath}\\begin{equation} a = b. \\tag{1} \\end{equation}')
+        elif star and not (d[0] == 'python' and str(d[1]).startswith('*')):
+            r.fail(d[3], 'amsmath declares %s without its starred form' % need, stmt='amsmath declares %s*' % need,
+                   witness='\\tag*{1}')
+        else:
+            r.ok(d[3], 'amsmath declares %s' % need, nontrivial=True)
     return r
 
 
